@@ -40,6 +40,22 @@ MATH_ISLANDS = [
 ]
 
 
+# spellings of numeric character references: the value is a code point that may be referenced (not NUL, a surrogate, a
+# noncharacter, a C0/C1 control), the digit string may carry any number of leading zeros, 'x' or 'X', either hex case;
+# the terminating ';' is always present (it is required in a conforming document)
+NUMREF_VALUES = [0x41, 0x7E, 0xA0, 0xE9, 0x4E2D, 0xD7FF, 0xE000, 0xFFFD, 0x1F600, 0x10FFFD]
+NUMREF_ZEROS = [0, 0, 1, 2, 3, 4, 5, 6, 7, 8, 9, 12, 40]
+
+
+def numref(rng):
+    v = rng.choice(NUMREF_VALUES)
+    z = "0" * rng.choice(NUMREF_ZEROS)
+    if rng.random() < 0.5:
+        return "&#%s%d;" % (z, v)
+    h = "%x" % v
+    return "&#%s%s%s;" % (rng.choice("xX"), z, rng.choice([h, h.upper()]))
+
+
 class Gen(object):
     def __init__(self, rng, amp=False, cap=False):
         self.rng = rng
@@ -60,8 +76,10 @@ class Gen(object):
             k = r.random()
             if k < 0.70:
                 parts.append(r.choice(WORDS))
-            elif k < 0.85:
+            elif k < 0.80:
                 parts.append(r.choice(REFS))
+            elif k < 0.86:
+                parts.append(numref(r))
             elif k < 0.90:
                 parts.append("a & b")
             elif self.want_amp:
@@ -100,7 +118,7 @@ class Gen(object):
         if r.random() < 0.2:
             pairs.append(("class", r.choice(["c", "a b", "x-y"])))
         if r.random() < 0.05:
-            pairs.append(("title", r.choice(["t", "a &amp; b", "x &lt; y"])))
+            pairs.append(("title", r.choice(["t", "a &amp; b", "x &lt; y", numref(r), "n" + numref(r) + "m"])))
         if r.random() < 0.04:
             pairs.append(("hidden", None))
         return pairs
@@ -293,6 +311,55 @@ class Gen(object):
             # html, head, body tags omitted (body content here always starts with an element other than meta/link/script/style/template)
             return "%s%s%s" % (dt, "".join(head_items), body)
         return "%s<html><head>%s<body>%s" % (dt, "".join(head_items), body)
+
+
+    # --- fragments: what may stand inside the context element (innerHTML), conforming as that element's content ---
+    def fragment(self):
+        r = self.rng
+        kind = r.choice(["div", "p", "span", "td", "tr", "tbody", "table", "ul", "select", "textarea", "title", "dl", "colgroup",
+                         "style", "script", "body", "li", "th", "thead", "caption", "pre", "html", "head", "section", "h1", "button"])
+        if kind in ("div", "td", "th", "li", "body", "section"):
+            return kind, self.flow(1, r.randint(1, 2))
+        if kind in ("p", "span", "h1", "pre", "button", "caption"):
+            return kind, self.phrasing(1)
+        if kind == "tr":
+            return kind, "".join("<%s>%s%s" % (c, self.phrasing(1), self.end(c, True)) for c in [r.choice(["td", "th"]) for _ in range(r.randint(1, 3))])
+        if kind in ("tbody", "thead"):
+            cell = "td" if kind == "tbody" else "th"
+            # (the last </tr> is written: html5lib reports eof-in-table for a row left open at the end of a fragment, which the
+            # standard's in-body EOF rule does not; fragments are not what the no-error clause is about, so it is not probed)
+            n = r.randint(1, 2)
+            return kind, "".join("<tr><%s>%s</%s>%s" % (cell, self.phrasing(1), cell, self.end("tr", j + 1 < n)) for j in range(n))
+        if kind == "table":
+            return kind, "<tbody><tr><td>%s</td></tr></tbody>" % self.phrasing(1) if r.random() < 0.5 else "<tr><td>%s<td>%s" % (self.text(), self.text())
+        if kind == "ul":
+            return kind, "".join("<li>%s%s" % (self.phrasing(1), self.end("li", True)) for _ in range(r.randint(1, 3)))
+        if kind == "select":
+            n = r.randint(1, 3)
+            return kind, "".join("<option%s>%s%s" % (self.attrs([("value", str(j))]), r.choice(WORDS), self.end("option", j + 1 < n)) for j in range(n))
+        if kind == "textarea":
+            return kind, r.choice(["", "text", "line\nline", "a &amp; b <not a tag>", numref(r)])
+        if kind == "title":
+            return kind, r.choice(["T", "a &amp; b", "x &lt; y", "t " + numref(r)])
+        if kind == "dl":
+            return kind, "<dt>%s%s<dd>%s%s" % (self.phrasing(1), self.end("dt", True), self.phrasing(1), self.end("dd", True))
+        if kind == "colgroup":
+            return kind, self.void("col", []) + self.void("col", [("span", "2")])
+        if kind == "style":
+            return kind, "p { color: red } a > b { x: '<' }"
+        if kind == "script":
+            return kind, "var a = 1 < 2 && b; // <p>"
+        if kind == "html":
+            return kind, "<head><title>T</title></head><body>%s</body>" % self.flow(1, 1)
+        if kind == "head":
+            return kind, "<title>T</title>" + self.void("meta", [("name", "description"), ("content", "a, b")])
+        return "div", self.flow(1, 1)
+
+
+def conforming_fragment(rng):
+    """(context element name, markup that is conforming as its content)"""
+    g = Gen(rng, False, False)
+    return g.fragment()
 
 
 def conforming(rng, amp=False, cap=False):
